@@ -105,6 +105,7 @@ def _run_check(ctx, pid, tier):
         err = "timeout: the abstract evaluation did not finish within the time limit"
     except Exception as e:  # a traceback must never look like a verdict
         err = "internal error: %s: %s\n%s" % (type(e).__name__, e, traceback.format_exc(limit=6))
+    ctx.settle()
     if ctx.anchor_errors:
         ae = "AnalysisError: anchor(s) vanished / idiom not recognised: " + " | ".join(ctx.anchor_errors[:6])
         err = ae if err is None else err + " ; " + ae
